@@ -113,6 +113,13 @@ func (c *clause) compilePred(p Term, env *Env) error {
 		c.bytecode = append(c.bytecode, instruction{opcode: opCall, operand: procedureIndicator{name: p, arity: 0}})
 		return nil
 	case Compound:
+		if p.Functor() == atomComma && p.Arity() == 2 {
+			// A conjunction in the position of a goal is transparent to cut: compile its goals in line.
+			if err := c.compilePred(p.Arg(0), env); err != nil {
+				return err
+			}
+			return c.compilePred(p.Arg(1), env)
+		}
 		for i := 0; i < p.Arity(); i++ {
 			c.compileBodyArg(p.Arg(i), env)
 		}
